@@ -16,6 +16,15 @@ CHECKS = {
  "C06": dict(level="fault_enumeration", technique="runtime monitoring under adversarial schedules: reversed/shuffled task order, every single duplicated task at three positions, duplicate multisets, fresh-process task execution; oracle = stored content and results of the reference schedule",
    text="For each generated plan the schedule space {order} x {which task is repeated, where} is enumerated (exhaustively for plans <= 14 tasks, sampled above) on the real task functions; every produced stored array and every result must equal the reference schedule's, and rewrites of a chunk must carry identical bytes.",
    note="Tasks run sequentially in the harness executor (concurrency itself is C07's subject). Intermediate data is wiped between schedules.", ref="3/C06"),
+ "C07": dict(level="exploration", technique="runtime monitoring: store-level event trace with timestamps under the real executors (threads, processes via sitecustomize-instrumented workers, single-threaded) with seeded write-latency injection; happens-before oracle over (call, return) times",
+   text="Real executors run generated DAGs under compute_arrays_in_parallel on/off, batch sizes and worker counts while every chunk set is delayed by a seeded latency at the store coroutine; no read of a produced array may be called before the first write of that chunk - or of any chunk of that array - returned, or before all arrays were created. Held on the interleavings actually produced (count reported); 'all interleavings' is restated as those observed.",
+   note="Clock: time.monotonic in all processes. Interleavings not produced by the injected delays are not judged. Shown to fire (243 violations in one quick run) when topological generations are merged.", ref="3/C07"),
+ "C08": dict(level="fault_enumeration", technique="runtime monitoring on virtual time: the real async_map_unordered driven by scripted futures (outcome and completion time per (input, submission), simultaneous completions in both handling orders); invariants on deliveries/submissions/raises; plus fault-injected retry wrapper and end-to-end storage faults",
+   text="All single-special-input scenarios over n in {1,2,3,10,11,12,13,25} x use_backups x batch sizes x original/backup outcomes are enumerated (pairs in thorough, random triples sampled); the scheduler must deliver each input once, never drop or double-deliver, raise only an input's own error when no twin succeeded or is pending, submit at most twice, never hang (virtual-time bound). Retry budget checked on the real thread pool wrapper and end to end with OSError injected at a chunk read.",
+   note="'Never hangs' is restated as bounded virtual time + the loop never idling with work outstanding. ProcessesExecutor configures no retries (documented in DESIGN.md), so the end-to-end budget is checked on ThreadsExecutor.", ref="3/C08"),
+ "C09": dict(level="fault_enumeration", technique="runtime monitoring with injected crashes at every task boundary and every data-chunk write (store tracer raises), then compute(resume=True) on real executors under the store tracer and a recording callback; real os._exit crashes resumed from a fresh process are sampled",
+   text="For each small program every crash point at task and chunk-write granularity is enumerated (sampled above the cap); the resumed run must refuse up front or reproduce the uninterrupted values, must not delete or change any chunk file that existed after the crash, must not re-execute operations that had completed (except create-arrays / 0-d outputs) and must not skip incomplete ones.",
+   note="Injected crashes are Python exceptions raised at the store boundary; true process death is exercised by the os._exit variant. Tasks are assumed deterministic (C06).", ref="3/C09"),
  "C12": dict(level="exploration", technique="runtime monitoring: block-write hook (value shape vs region shape for every block written by every task) + declared-vs-computed-vs-stored metadata comparison",
    text="All block writes of generated plans (unoptimised so that every intermediate is written, and optimised) are observed at zarr.Array.__setitem__; a value whose shape differs from its region is a silent broadcast. Declared shape/dtype/chunks are compared with the computed result and with the backing Zarr array's metadata.",
    note="Hook sees writes in the client process (single-threaded and threads executors).", ref="3/C12"),
